@@ -225,6 +225,9 @@ def gen_problem(rng, opts=None):
             fills[filler] = rng.choice(used)
     P["meta"]["universes"] = universes
     P["meta"]["fills"] = fills
+    # (only drawn on request, so that the problems generated for everybody else are unchanged)
+    joint_imp = bool(o.get("joint_imp_cards")) and place["imp"] == "data" and len(particles) > 1 and rng.random() < 0.5
+    P["meta"]["joint_imp"] = joint_imp
     # ---- cells
     cells = []
     geoms = {}
@@ -247,6 +250,8 @@ def gen_problem(rng, opts=None):
         geoms[c] = ast
         params = []
         imp = {p: rng.choice([1, 1, 1, 0, 2, 0.5]) for p in particles}
+        if joint_imp:
+            imp = {p: imp[particles[0]] for p in particles}      # one data-block card 'imp:n,p ...' for all particles
         imps[c] = imp
         if place["imp"] == "cell":
             if len(particles) > 1 and len(set(imp.values())) == 1 and rng.random() < 0.6:
@@ -335,7 +340,10 @@ def gen_problem(rng, opts=None):
         it, _ = gen_numlist(rng, n, positive=False, shortcuts=False)
         data.append(card + it)
     ncell_entries = len(cell_nums)
-    if place["imp"] == "data":
+    if place["imp"] == "data" and joint_imp:
+        vals = [imps[c][particles[0]] for c in cell_nums]
+        data.append([T("imp:" + ",".join(particles))] + compress(rng, vals, o["shortcuts"]))
+    elif place["imp"] == "data":
         for p in particles:
             vals = [imps[c][p] for c in cell_nums]
             data.append([T("imp:" + p)] + compress(rng, vals, o["shortcuts"]))
